@@ -43,6 +43,26 @@ macro "addpre_tac" f:ident : tactic =>
     parseStatus E (addPre p st) = ((parseStatus E st).1, addPre p (parseStatus E st).2) := by
   fun_cases parseStatus E st <;> addpre_tac parseStatus
 
+@[grind =] theorem amountLeadSign_addPre (p) (st : PState σ) :
+    amountLeadSign E (addPre p st) = ((amountLeadSign E st).1, addPre p (amountLeadSign E st).2) := by
+  fun_cases amountLeadSign E st <;> addpre_tac amountLeadSign
+
+@[grind =] theorem amountLeftCommodity_addPre (p) (sg : Bytes) (sb : Bool) (st : PState σ) :
+    amountLeftCommodity E sg sb (addPre p st) = ((amountLeftCommodity E sg sb st).1, addPre p (amountLeftCommodity E sg sb st).2) := by
+  fun_cases amountLeftCommodity E sg sb st <;> addpre_tac amountLeftCommodity
+
+@[grind =] theorem amountSecondSign_addPre (p) (sg : Bytes) (st : PState σ) :
+    amountSecondSign E sg (addPre p st) = ((amountSecondSign E sg st).1, addPre p (amountSecondSign E sg st).2) := by
+  fun_cases amountSecondSign E sg st <;> addpre_tac amountSecondSign
+
+@[grind =] theorem amountRightCommodity_addPre (p) (c : Commodity) (st : PState σ) :
+    amountRightCommodity E c (addPre p st) = ((amountRightCommodity E c st).1, addPre p (amountRightCommodity E c st).2) := by
+  fun_cases amountRightCommodity E c st <;> addpre_tac amountRightCommodity
+
+@[grind =] theorem amountNumber_addPre (p) (sp : Pos) (sg : Bytes) (c : Commodity) (sb : Bool) (st : PState σ) :
+    amountNumber E sp sg c sb (addPre p st) = ((amountNumber E sp sg c sb st).1, addPre p (amountNumber E sp sg c sb st).2) := by
+  fun_cases amountNumber E sp sg c sb st <;> addpre_tac amountNumber
+
 @[grind =] theorem parseAmount_addPre (p) (st : PState σ) :
     parseAmount E (addPre p st) = ((parseAmount E st).1, addPre p (parseAmount E st).2) := by
   fun_cases parseAmount E st <;> addpre_tac parseAmount
@@ -106,6 +126,22 @@ macro "addpre_tac" f:ident : tactic =>
     txDescription E (addPre p st) = ((txDescription E st).1, addPre p (txDescription E st).2) := by
   fun_cases txDescription E st <;> addpre_tac txDescription
 
+@[grind =] theorem txDate2_addPre (p) (st : PState σ) :
+    txDate2 E (addPre p st) = ((txDate2 E st).1, addPre p (txDate2 E st).2) := by
+  fun_cases txDate2 E st <;> addpre_tac txDate2
+
+@[grind =] theorem txStatus_addPre (p) (st : PState σ) :
+    txStatus E (addPre p st) = ((txStatus E st).1, addPre p (txStatus E st).2) := by
+  fun_cases txStatus E st <;> addpre_tac txStatus
+
+@[grind =] theorem txCode_addPre (p) (st : PState σ) :
+    txCode E (addPre p st) = ((txCode E st).1, addPre p (txCode E st).2) := by
+  fun_cases txCode E st <;> addpre_tac txCode
+
+@[grind =] theorem txComment_addPre (p) (st : PState σ) :
+    txComment E (addPre p st) = ((txComment E st).1, addPre p (txComment E st).2) := by
+  fun_cases txComment E st <;> addpre_tac txComment
+
 @[grind =] theorem txHeader_addPre (p) (st : PState σ) :
     txHeader E (addPre p st) = ((txHeader E st).1, addPre p (txHeader E st).2) := by
   fun_cases txHeader E st <;> addpre_tac txHeader
@@ -128,6 +164,14 @@ macro "addpre_tac" f:ident : tactic =>
 @[grind =] theorem commodityInline_addPre (p) (st : PState σ) :
     commodityInline E (addPre p st) = ((commodityInline E st).1, addPre p (commodityInline E st).2) := by
   fun_cases commodityInline E st <;> addpre_tac commodityInline
+
+@[grind =] theorem accountNameRest_addPre (p) (nm : Bytes) (st : PState σ) :
+    accountNameRest E nm (addPre p st) = ((accountNameRest E nm st).1, addPre p (accountNameRest E nm st).2) := by
+  fun_cases accountNameRest E nm st <;> addpre_tac accountNameRest
+
+@[grind =] theorem lineComment_addPre (p) (st : PState σ) :
+    lineComment E (addPre p st) = ((lineComment E st).1, addPre p (lineComment E st).2) := by
+  fun_cases lineComment E st <;> addpre_tac lineComment
 
 @[grind =] theorem parseAccountDirective_addPre (p) (sp : Pos) (st : PState σ) :
     parseAccountDirective E sp (addPre p st) = ((parseAccountDirective E sp st).1, addPre p (parseAccountDirective E sp st).2) := by
